@@ -67,6 +67,21 @@ Definition msd_str (th : nat) (data : list (list N)) : list (list N) :=
   msd_sort (list N) (fun s => s) lex_gtb th data.
 Definition isort_str (data : list (list N)) : list (list N) := isort_g (list N) lex_gtb data.
 
+(* ---- RadixSort::sort_bytes / sort_bytes_msd (Vec<Vec<u8>>): the same 257 buckets, no cut-off at all;
+   the recursion ends because a bucket i > 0 at depth d only holds strings longer than d.
+   fuel = longest string + 1 ---- *)
+Fixpoint bytes_msd_go (fuel depth : nat) (data : list (list N)) : list (list N) :=
+  match fuel with
+  | O => data
+  | S f =>
+    if Nat.leb (length data) 1 then data
+    else flat_map (fun i => let b := msd_bucket (list N) (fun s => s) depth i data in
+                            if Nat.ltb 1 (length b) && Nat.ltb 0 i then bytes_msd_go f (S depth) b else b)
+                  (seq 0 257)
+  end.
+Definition max_len (data : list (list N)) : nat := fold_left Nat.max (map (@length N) data) O.
+Definition sort_bytes (data : list (list N)) : list (list N) := bytes_msd_go (S (max_len data)) 0 data.
+
 (* ---- u32 / u64: get_byte(p) = (x >> 8*(w-1-p)) & 0xFF for p < w ---- *)
 Fixpoint be_bytes (w : nat) (x : N) : list N :=
   match w with
